@@ -136,7 +136,7 @@ def main(argv=None):
     excluded = []
 
     if missing:
-        inconclusive.append('declared functions not found in %s: %s' % (SRC, missing))
+        print('note: declared functions not found in %s (renamed/removed?): %s' % (SRC, missing))
 
     # ---- 1. known findings: replay each witness on the real code
     validated = 0
@@ -286,7 +286,8 @@ def main(argv=None):
             'explanation': getattr(H, 'EXPLANATION', ''),
             'technique': 'bounded symbolic execution of the real code (CrossHair 0.0.110 + z3 5.1.0), all paths '
                          'within bounds; counterexamples replayed on real code',
-            'functions_encoded': H.FUNCTIONS,
+            'functions_encoded': [f for f in H.FUNCTIONS if f not in missing],
+            'functions_declared_but_missing_in_source': missing,
             'source_root': SRC,
             'source_sha256_16': digests,
             'conditions': tiers_desc,
